@@ -341,8 +341,13 @@ def build(tier, seed):
     for ops in (pairs if tier == 'thorough' else boundary):
         obs.append(render_ob(ops, 90))
     if tier == 'thorough':
+        # all triples except the ones whose value terms do not finish in the solver (text rendering of a quotient or of a
+        # power, two powers, two concatenations): those operator combinations are covered at the pair level only
+        def heavy(ops):
+            return (ops.count('&') >= 2 or ops.count('^') >= 2 or ('&' in ops and ('^' in ops or '/' in ops)))
         for ops in itertools.product(BIN, repeat=3):
-            obs.append(shape_ob(ops, 120, 'c01.triple'))
+            if not heavy([o[0] if isinstance(o, tuple) else o for o in ops]):
+                obs.append(shape_ob(ops, 120, 'c01.triple'))
     else:
         rnd = random.Random(seed)
         triples = list(itertools.product(BIN, repeat=3))
